@@ -38,7 +38,8 @@ func isStorageCall(c *ast.CallExpr) (string, bool) {
 		return "", false
 	}
 	recv := strings.ToLower(exprString(sel.X))
-	if strings.Contains(recv, "storage") || recv == "fromrequest" || recv == "verifier" || recv == "k.storage" || recv == "s" {
+	if strings.Contains(recv, "storage") || recv == "fromrequest" || recv == "verifier" || recv == "k.storage" || recv == "s" ||
+		(recv == "k" && sel.Sel.Name == "KeySet") { // keys.go: `k KeyProvider` is the storage
 		return sel.Sel.Name, true
 	}
 	return "", false
